@@ -129,12 +129,62 @@ var c05Names = []string{
 	"../dest_evil/file", "../%R_evil/file", "plain", "dir/plain", "dir",
 }
 
+var c05Types = []string{"f", "d", "l", "fifo", "sock", "chr"}
+var c05OptSets = [][]string{
+	{"-r", "-D", "-l"}, {"-a"}, {"-r", "-l", "-p", "-t", "-o", "-g", "-D"}, {"-r", "-D", "-l", "--delete"}, {"-r"}, {"-r", "-c", "-I", "-D", "-l"},
+}
+
+// C05MatrixSize is the size of the directed matrix: escape vector x entry type
+// x option set x side (one hostile entry per list).
+func C05MatrixSize() int { return len(c05Names) * len(c05Types) * len(c05OptSets) * 2 }
+
+func c05Directed(i int) *C05Scenario {
+	sc := &C05Scenario{Side: []string{"client", "module"}[i%2]}
+	i /= 2
+	sc.Opts = c05OptSets[i%len(c05OptSets)]
+	i /= len(c05OptSets)
+	typ := c05Types[i%len(c05Types)]
+	i /= len(c05Types)
+	name := c05Names[i%len(c05Names)]
+	e := C05Entry{Name: fstree.Name(name), Type: typ, Perm: 0o751}
+	switch typ {
+	case "l":
+		e.Link = "../sibling_file"
+	case "f":
+		e.Size = 900
+	}
+	switch {
+	case strings.HasPrefix(name, "evil2/"):
+		sc.Entries = append(sc.Entries, C05Entry{Name: "evil2", Type: "l", Link: "%A", Perm: 0o777})
+	case strings.HasPrefix(name, "evil_up/"):
+		sc.Entries = append(sc.Entries, C05Entry{Name: "evil_up", Type: "l", Link: "..", Perm: 0o777})
+	case strings.HasPrefix(name, "evil/"):
+		sc.Entries = append(sc.Entries, C05Entry{Name: "evil", Type: "l", Link: "../sibling_dir", Perm: 0o777})
+	}
+	sc.Entries = append(sc.Entries, e, C05Entry{Name: "zz_benign", Type: "f", Perm: 0o644, Size: 10})
+	sc.Tr = Transport{CapCS: kernel.Unbounded, CapSC: kernel.Unbounded, Chunk: kernel.ChunkMax, Bias: kernel.BiasCanonical}
+	return sc
+}
+
 func (c05) Generate(seed uint64, tier string, index int) any {
 	g := NewGen(kernel.Derive(seed, "workload"), tier == "thorough")
+	if tier == "thorough" && index < C05MatrixSize() {
+		return c05Directed(index) // the whole matrix, in order
+	}
+	if g.R.Intn(2) == 0 {
+		return c05Directed(g.R.Intn(C05MatrixSize())) // a sampled cell of the matrix
+	}
 	sc := &C05Scenario{Side: []string{"client", "module"}[g.R.Intn(2)]}
 	opts := []string{"-r"}
 	for _, o := range []string{"-l", "-p", "-t", "-o", "-g", "-D", "--delete", "-I", "-c"} {
-		if g.R.Intn(3) != 0 {
+		p := 2
+		if o == "--delete" {
+			p = 0 // deleting first removes the pre-existing symlinks that many vectors go through
+			if g.R.Intn(4) == 0 {
+				p = 3
+			}
+		}
+		if g.R.Intn(3) < p {
 			opts = append(opts, o)
 		}
 	}
@@ -352,6 +402,7 @@ func (c05) Run(t *testing.T, scenario any, job *Job, res *Result) {
 	}
 	res.Probe("side_"+sc.Side, 1)
 	res.Probe("hostile_entries", len(sc.Entries))
+	res.Probe("enum_cases", 1)
 	res.NonTrivial = true
 	res.Sample = map[string]any{"side": sc.Side, "sub": sc.Sub, "opts": sc.Opts, "entries": len(sc.Entries), "first_names": []string{subst(sc.Entries[0].Name), subst(sc.Entries[len(sc.Entries)-1].Name)}, "real_error": ErrString(out.RealErr)}
 }
@@ -381,7 +432,11 @@ type C06Scenario struct {
 	Path     string    `json:"path"`    // path argument line
 	Opts     []string  `json:"opts"`
 	FSModule bool      `json:"fs_module"`
-	Tr       Transport `json:"tr"`
+	// Swap: after the file list has been received and right before the file is
+	// requested, an external process replaces a regular file inside the module
+	// by a symlink to an outside file (time of check / time of use).
+	Swap bool      `json:"swap,omitempty"`
+	Tr   Transport `json:"tr"`
 }
 
 type c06 struct{}
@@ -417,6 +472,12 @@ func (c06) Generate(seed uint64, tier string, index int) any {
 		}
 	}
 	sc.Opts = opts
+	if g.R.Intn(5) == 0 {
+		// time-of-check/time-of-use: a benign request whose file is swapped for a symlink
+		sc.Swap = true
+		sc.Path = sc.Module + []string{"/", "/inside_file", "/inside_dir/"}[g.R.Intn(3)]
+		sc.Opts = append([]string{"-r"}, opts...)
+	}
 	sc.Tr = g.TransportFor(12, 64<<10)
 	if sc.Tr.CapSC != kernel.Unbounded && sc.Tr.CapSC < 4096 {
 		sc.Tr.CapSC = 4096
@@ -466,6 +527,7 @@ func (c06) Run(t *testing.T, scenario any, job *Job, res *Result) {
 	args = append(args, ".", path)
 	var wire bytes.Buffer
 	var pr *refproto.PullResult
+	nswapped := 0
 	out := RunWithRef(t, &RefRun{Tr: sc.Tr, RefIsClient: true,
 		TapFromReal: func(b []byte) {
 			if wire.Len() < 32<<20 {
@@ -476,8 +538,26 @@ func (c06) Run(t *testing.T, scenario any, job *Job, res *Result) {
 			return srv.HandleDaemonConn(ctx, rsyncd.NewConnection(end, end, "192.0.2.77:7777"))
 		},
 		Ref: func(w *refproto.Wire) error {
+			swapped := map[string]bool{}
 			pr, _ = refproto.Pull(w, refproto.PullOpts{Daemon: true, Module: sc.Module, Args: args, List: lo, ServerIsSender: true, MaxData: 16 << 20,
-				Plan: func(int, *refproto.Entry, int32) (bool, []byte, int, int) { return true, nil, 0, 0 }})
+				Plan: func(idx int, e *refproto.Entry, seed int32) (bool, []byte, int, int) {
+					if sc.Swap && (sc.Module == "mod" || sc.Module == "modfs") {
+						// the list is in; swap the file for a symlink out of the module now
+						for _, cand := range []string{e.Name, "inside_file", "inside_dir/deep", "inside_dir/" + e.Name} {
+							p := filepath.Join(cr.Root, cand)
+							if fi, err := os.Lstat(p); err == nil && fi.Mode().IsRegular() && !swapped[p] {
+								swapped[p] = true
+								os.Remove(p)
+								os.Symlink(filepath.Join(cr.Area, "sibling_file"), p)
+								nswapped++
+							}
+						}
+					}
+					if idx%2 == 1 {
+						return true, []byte("basis data so that the sender takes the delta path, long enough"), 16, 16
+					}
+					return true, nil, 0, 0
+				}})
 			return nil
 		}})
 	res.AddRef(out)
@@ -532,6 +612,7 @@ func (c06) Run(t *testing.T, scenario any, job *Job, res *Result) {
 	if pr != nil {
 		res.Probe("stage_"+pr.Stage, 1)
 	}
+	res.Fault("file_swapped_for_outside_symlink", nswapped)
 	res.NonTrivial = true
 	st := ""
 	if pr != nil {
